@@ -53,6 +53,7 @@ fn drive(args: &[String]) {
     "c14" => c14::drive(vectors.expect("--vectors"), out, thorough),
     "c15" => c15::drive(vectors.expect("--vectors"), out, thorough, seed),
     "c16" => c16::drive(corpus, seed, out, thorough),
+    "c17" => c17::drive(seed, out, thorough),
     "rules" => rules::drive(opt(args, "--universe").expect("--universe"), vectors.expect("--vectors"), out),
     "c20" => c20::drive(vectors.expect("--vectors"), out),
     _ => {
